@@ -41,14 +41,14 @@ func (area) Name() string { return "pipeline" }
 // ---------------------------------------------------------------- stage trees
 
 type node struct {
-	id       int
-	async    bool // pooled stage (baseStage.ctx and execPool set)
-	rej      byte // 0: the pool accepts the task; 'X': stopped pool; 'C': cancelled context on a saturated pool
-	queued   bool // 'Q': pooled on a 1-worker pool whose worker is busy; the stage's context is cancelled
+	id     int
+	async  bool // pooled stage (baseStage.ctx and execPool set)
+	rej    byte // 0: the pool accepts the task; 'X': stopped pool; 'C': cancelled context on a saturated pool
+	queued bool // 'Q': pooled on a 1-worker pool whose worker is busy; the stage's context is cancelled
 	//               after Submit accepted the task and before a worker picks it up
 	cancel   context.CancelFunc
 	cwait    chan struct{} // non-nil: the stage's Complete() hook parks until the harness closes it
-	out      byte // 'o' ok, 'e' error, 'p' execution panics, 'l' Plan() panics, 'n' NextStages() panics
+	out      byte          // 'o' ok, 'e' error, 'p' execution panics, 'l' Plan() panics, 'n' NextStages() panics
 	children []*node
 	parent   *node
 
@@ -341,9 +341,9 @@ type runner struct {
 	blocked map[int]*node // goroutine -> stage it is parked in front of
 	nextThr int
 	done    chan struct{} // closed at the end of the case
-	pendArr int // submitted tasks that have not reached their gate yet
-	parked  int // goroutines parked inside a Complete() hook: their Complete() was counted, their Dec is outstanding
-	queuedN *node // a 'Q' stage whose task was submitted and waits in the queue of the busy 1-worker pool
+	pendArr int           // submitted tasks that have not reached their gate yet
+	parked  int           // goroutines parked inside a Complete() hook: their Complete() was counted, their Dec is outstanding
+	queuedN *node         // a 'Q' stage whose task was submitted and waits in the queue of the busy 1-worker pool
 	o       obs
 	failed  bool // some executed stage has failed or panicked so far
 }
